@@ -1,10 +1,10 @@
 from common import T_COMMON
 
 CFG = dict(
-    modules=["PolyVerif.Props.C03", "PolyVerif.Props.C03Values", "PolyVerif.Props.C03Normals", "PolyVerif.Props.C03Laplacian", "PolyVerif.Props.C03WeldUnweld"],
+    modules=["PolyVerif.Props.C03", "PolyVerif.Props.C03Values", "PolyVerif.Props.C03Normals", "PolyVerif.Props.C03Laplacian", "PolyVerif.Props.C03WeldUnweld", "PolyVerif.Props.C03Callbacks"],
     gen=[dict(spec="transform.json", out="Transform.lean")],
     theorems=["unweld_spec", "unweld_idem", "removeUnreferenced_spec", "removeUnreferenced_allReferenced", "filterAttr_allReferenced", "flip_spec", "flip_flip", "flip_rejects",
-              "toPointCloud_spec", "split_single", "split_rejects_non_triangle", "split_partition", "split_spec", "weld_corners", "weld_representative", "weld_survivors", "weld_spec", "weld_keyCorners", "weld_unweld", "append_spec", "append_rejects", "append_cornersOrZero", "repeatMesh_corners", "filterAttr_spec", "crop_spec", "removeNullFaces_spec", "filterAttr_rejects", "crop_rejects", "removeNullFaces_rejects", "weld_rejects", "setAttr_spec", "modifyAttr_spec", "mapAttr_spec", "modifyAttr_rejects",
+              "toPointCloud_spec", "split_single", "split_rejects_non_triangle", "split_partition", "split_spec", "weld_corners", "weld_representative", "weld_survivors", "weld_spec", "weld_keyCorners", "weld_unweld", "append_spec", "append_rejects", "append_cornersOrZero", "repeatMesh_corners", "filterAttr_spec", "crop_spec", "removeNullFaces_spec", "filterAttr_rejects", "crop_rejects", "removeNullFaces_rejects", "weld_rejects", "scanAttr_spec", "scanVisits_spec", "scanPrimitives_spec", "modifyAttrIdx_spec", "modifyAttrIdx_rejects", "setAttr_spec", "modifyAttr_spec", "mapAttr_spec", "modifyAttr_rejects",
               "translate_spec", "scaleAbout_spec", "scaleMesh_spec", "rotate_spec", "applyTRS_spec", "center_spec",
               "normalize_spec", "translate_post", "scaleAbout_post", "rotate_post", "rotate_unit_post", "applyTRS_post", "center_post", "normalize_post",
               "smoothAccum_sum", "smoothAccum_perm", "smoothNormals_values", "smoothNormalAt_unit", "smoothNormalAt_unreferenced", "smoothNormals_spec",
